@@ -14,6 +14,7 @@ by compiling each of them at run time into a fresh function object and running i
 -/
 import ZygoVerif.Proofs.SimGlue
 import ZygoVerif.Proofs.SimBind
+import ZygoVerif.Proofs.SimClean
 set_option linter.unusedSimpArgs false
 namespace ZygoVerif.Sim
 open ZygoVerif.Core ZygoVerif.VM
@@ -66,6 +67,26 @@ theorem FailsE.step {s : St} {tr : List String} {pre i post} (h : At s pre i pos
   refine ⟨_, runLoop_step_err h (f + 1) st hse, ?_⟩
   rw [← htr]; exact restore_trace st se
 
+/-! ## … and without a bound on the number of instructions (loops) -/
+
+def ReachX (s s' : St) : Prop := ∃ K, ReachE K s s'
+def FailsX (s : St) (tr : List String) : Prop := ∃ K, FailsE K s tr
+
+theorem ReachE.toX {K : Nat} {s s' : St} (h : ReachE K s s') : ReachX s s' := ⟨K, h⟩
+theorem Reach.toX {K m : Nat} {s s' : St} (h : Reach K m s s') : ReachX s s' := h.toE.toX
+theorem ReachX.refl (s : St) : ReachX s s := (ReachE.refl s).toX
+theorem ReachX.trans {s s₁ s₂ : St} (h₁ : ReachX s s₁) (h₂ : ReachX s₁ s₂) : ReachX s s₂ := by
+  obtain ⟨K₁, h₁⟩ := h₁; obtain ⟨K₂, h₂⟩ := h₂; exact ⟨_, h₁.trans h₂⟩
+theorem FailsE.toX {K : Nat} {s : St} {tr} (h : FailsE K s tr) : FailsX s tr := ⟨K, h⟩
+theorem Fails.toX {K : Nat} {s : St} {tr} (h : Fails K s tr) : FailsX s tr := h.toE.toX
+theorem FailsX.of_reach {s s₁ : St} {tr} (h₁ : ReachX s s₁) (h₂ : FailsX s₁ tr) : FailsX s tr := by
+  obtain ⟨K₁, h₁⟩ := h₁; obtain ⟨K₂, h₂⟩ := h₂; exact ⟨_, FailsE.of_reach h₁ h₂⟩
+theorem ReachX.step {s s' : St} {pre i post} (h : At s pre i post) (m : Nat)
+    (hx : ∀ f, m ≤ f → (exec (f + 1) i).run s = (.ok (), s')) : ReachX s s' := (ReachE.step h m hx).toX
+theorem FailsX.step {s : St} {tr : List String} {pre i post} (h : At s pre i post) (m : Nat)
+    (hx : ∀ f, m ≤ f → ∃ se, (exec (f + 1) i).run s = (.error .err, se) ∧ se.trace = tr) : FailsX s tr :=
+  (FailsE.step h m hx).toX
+
 /-! ## What balanced code leaves alone -/
 
 structure Frame (s s' : St) : Prop where
@@ -75,19 +96,24 @@ structure Frame (s s' : St) : Prop where
   susp : s'.suspended = s.suspended
   fnsLen : s.fns.length ≤ s'.fns.length
   fns : ∀ id, id < s.fns.length → fnOf s' id = fnOf s id
+  loopsLen : s.loops.length ≤ s'.loops.length
+  loops : ∀ id, id < s.loops.length → s'.loops.getD id {} = s.loops.getD id {}
 
-theorem Frame.refl (s : St) : Frame s s := ⟨rfl, rfl, rfl, rfl, Nat.le_refl _, fun _ _ => rfl⟩
+theorem Frame.refl (s : St) : Frame s s :=
+  ⟨rfl, rfl, rfl, rfl, Nat.le_refl _, fun _ _ => rfl, Nat.le_refl _, fun _ _ => rfl⟩
 
 theorem Frame.trans {a b c : St} (h₁ : Frame a b) (h₂ : Frame b c) : Frame a c :=
   ⟨h₂.linear.trans h₁.linear, h₂.curfunc.trans h₁.curfunc, h₂.addr.trans h₁.addr, h₂.susp.trans h₁.susp,
    Nat.le_trans h₁.fnsLen h₂.fnsLen,
-   fun id hid => (h₂.fns id (Nat.lt_of_lt_of_le hid h₁.fnsLen)).trans (h₁.fns id hid)⟩
+   fun id hid => (h₂.fns id (Nat.lt_of_lt_of_le hid h₁.fnsLen)).trans (h₁.fns id hid),
+   Nat.le_trans h₁.loopsLen h₂.loopsLen,
+   fun id hid => (h₂.loops id (Nat.lt_of_lt_of_le hid h₁.loopsLen)).trans (h₁.loops id hid)⟩
 
 theorem Frame.jmp (s : St) (p : Int) (d : List (Option Val)) : Frame s (s.jmp p d) :=
-  ⟨rfl, rfl, rfl, rfl, Nat.le_refl _, fun _ _ => rfl⟩
+  ⟨rfl, rfl, rfl, rfl, Nat.le_refl _, fun _ _ => rfl, Nat.le_refl _, fun _ _ => rfl⟩
 
 theorem Frame.bind (s : St) (id : Nat) (x : String) (v : Val) : Frame s (s.bind id x v) :=
-  ⟨rfl, rfl, rfl, rfl, Nat.le_refl _, fun _ _ => rfl⟩
+  ⟨rfl, rfl, rfl, rfl, Nat.le_refl _, fun _ _ => rfl, Nat.le_refl _, fun _ _ => rfl⟩
 
 /-! ## The parent chain of the current function -/
 
@@ -166,6 +192,8 @@ def foBuiltins : List String :=
 theorem foBuiltins_not_ho : ∀ h ∈ foBuiltins, h ≠ "force" ∧ h ≠ "apply" ∧ h ≠ "map" := by decide
 /-- `substitute` (C16) reads the thunk table: not first-order either -/
 theorem foBuiltins_not_substitute : ∀ h ∈ foBuiltins, h ≠ "substitute" := by decide
+/-- `probe` (C09, channel `tail`) reads the stack depths: not first-order either -/
+theorem foBuiltins_not_probe : ∀ h ∈ foBuiltins, h ≠ "probe" := by decide
 
 /-- a name a `def`/`set`/`let`/`letseq` of the fragment may bind -/
 def okBinder (x : String) : Bool := !foBuiltins.contains x
@@ -237,9 +265,44 @@ theorem Globals.newFrame {rs : Ref.St} (hg : Globals rs) (env : Nat) (hne : rs.f
 
 /-! ## The relation for the fragment with calls -/
 
+/-- no stack mark in any binding or array of the reference state (`for` relies on it) -/
+def CleanSt (rs : Ref.St) : Prop :=
+  (∀ i x v, (rs.frames.getD i {}).vars.lookup x = some v → Clean v) ∧ CleanHeap rs.heap
+
+theorem CleanSt.setVar {rs : Ref.St} (hc : CleanSt rs) (id : Nat) (x : String) {v : Val} (hv : Clean v) :
+    CleanSt (Ref.setVar rs id x v) := by
+  unfold Ref.setVar
+  cases hid : rs.frames[id]? with
+  | none => exact hc
+  | some fr0 =>
+    have hlt := lt_of_getElem?_some hid
+    refine ⟨fun i y w hw => ?_, hc.2⟩
+    simp only [List.getD_eq_getElem?_getD, List.getElem?_set] at hw
+    by_cases hi : id = i
+    · subst hi
+      simp only [hlt, if_true, Option.getD_some, assocSet_eq, lookup_assocSet] at hw
+      split at hw
+      · injection hw with hw; subst hw; exact hv
+      · refine hc.1 id y w ?_
+        rw [List.getD_eq_getElem?_getD, hid]; exact hw
+    · simp only [hi, if_false] at hw
+      exact hc.1 i y w (by rw [List.getD_eq_getElem?_getD]; exact hw)
+
+theorem CleanSt.newFrame {rs : Ref.St} (hc : CleanSt rs) (env : Nat) : CleanSt (Ref.newFrame rs env).2 := by
+  refine ⟨fun i y w hw => ?_, hc.2⟩
+  have hw' : ((rs.frames ++ [({ parent := some env } : Ref.Frame)]).getD i {}).vars.lookup y = some w := hw
+  simp only [List.getD_eq_getElem?_getD] at hw'
+  by_cases hi : i < rs.frames.length
+  · rw [List.getElem?_append_left hi] at hw'
+    exact hc.1 i y w (by rw [List.getD_eq_getElem?_getD]; exact hw')
+  · by_cases hi' : i = rs.frames.length
+    · subst hi'; simp at hw'
+    · rw [List.getElem?_eq_none (by simp; omega)] at hw'; simp at hw'
+
 structure RelC (s : St) (rs : Ref.St) (env : Nat) : Prop extends RelCore s rs env where
   fnchain : FnChainOk s s.curfunc
   globals : Globals rs
+  clean : CleanSt rs
 
 /-- Under `RelC`, the three-stage `LexicalLookupSymbol` is the reference lookup. -/
 theorem RelC.lexLookup {s rs env} (h : RelC s rs env) (x : String) :
@@ -263,17 +326,19 @@ theorem RelC.lookup_fo {s rs env} (h : RelC s rs env) {name : String} (hn : name
   h.globals.lookupIn hn h.chain _ (by have := h.chain.lt; omega)
 
 theorem RelC.jmp {s rs env} (h : RelC s rs env) (p : Int) (d : List (Option Val)) : RelC (s.jmp p d) rs env :=
-  ⟨h.toRelCore.jmp p d, h.fnchain.transfer (s' := s.jmp p d) ⟨[], rfl⟩ (Nat.le_refl _) (fun _ _ => rfl), h.globals⟩
+  ⟨h.toRelCore.jmp p d, h.fnchain.transfer (s' := s.jmp p d) ⟨[], rfl⟩ (Nat.le_refl _) (fun _ _ => rfl), h.globals,
+   h.clean⟩
 
 theorem RelC.bind {s rs env} (h : RelC s rs env) (id : Nat) (hid : id < rs.frames.length) {x : String}
-    (hx : okBinder x = true) (v : Val) : RelC (s.bind id x v) (Ref.setVar rs id x v) env :=
+    (hx : okBinder x = true) {v : Val} (hv : Clean v) : RelC (s.bind id x v) (Ref.setVar rs id x v) env :=
   ⟨h.toRelCore.bind id hid x v, h.fnchain.transfer (s' := s.bind id x v) ⟨[], rfl⟩ (Nat.le_refl _) (fun _ _ => rfl),
-   h.globals.setVar id hx v⟩
+   h.globals.setVar id hx v, h.clean.setVar id x hv⟩
 
 theorem RelC.pushScope {s rs env} (h : RelC s rs env) :
     RelC s.pushScope (Ref.newFrame rs env).2 rs.frames.length :=
   ⟨h.toRelCore.pushScope,
    h.fnchain.transfer (s' := s.pushScope) ⟨[some s.scopes.length], rfl⟩ (Nat.le_refl _) (fun _ _ => rfl),
-   h.globals.newFrame env (by intro e; have := h.chain.lt; rw [e] at this; simp at this)⟩
+   h.globals.newFrame env (by intro e; have := h.chain.lt; rw [e] at this; simp at this),
+   h.clean.newFrame env⟩
 
 end ZygoVerif.Sim
